@@ -769,7 +769,8 @@ def _k_c06(op, e):
 
 def _k_c07(op, e):
     h = e.split(' ', 1)[0]
-    if h in ('res', 'ans', 'fx', 'ret', 'bad-op', 'no-shape', 'parse-error'):
+    # 'ok': an OK report for a call that a FORBID_CALL catches is an effect the call must not have (seed C07-m7)
+    if h in ('res', 'ans', 'fx', 'ret', 'ok', 'bad-op', 'no-shape', 'parse-error'):
         return e
     if h == 'report':
         sev, _, kind, rest = _rep_fields(e)
